@@ -102,7 +102,15 @@ def is_xtag_limit(entered_input: str, division: Union[Literal["Strom"], Literal[
         xtag_evaluator = is_gastag_limit
     else:
         raise NotImplementedError(f"The division must either be 'Strom' or 'Gas': '{division}'")
-    if xtag_evaluator(date_time):  # type:ignore[arg-type]
+    try:
+        is_limit = xtag_evaluator(date_time)  # type:ignore[arg-type]
+    except OverflowError as overflow_error:
+        # the conversion to German local time fails at the very edges of the representable datetime range
+        return EvaluatedFormatConstraint(
+            format_constraint_fulfilled=False,
+            error_message=f"The datetime '{entered_input}' cannot be converted to German local time: {overflow_error}",
+        )
+    if is_limit:
         return EvaluatedFormatConstraint(format_constraint_fulfilled=True, error_message=None)
     error_message = (
         f"The given datetime '{date_time.isoformat()}' is not the limit of a {division}tag"  # type:ignore[union-attr]
